@@ -47,16 +47,7 @@ pub struct ObjectCookie { _p: () }
 //@item broker/src/broker/service.rs struct Service
 
 impl Service {
-    // subscribers of one event id
-    spec fn subs(&self, event: u32) -> Set<ConnectionId> {
-        if self.events@.contains_key(event) { self.events@[event]@ } else { Set::empty() }
-    }
-
-    // Representation invariant: no event id is mapped to an empty subscriber set. This is what makes
-    // "last subscriber gone" detectable and "first subscriber" == "key absent" correct.
-    spec fn inv(&self) -> bool {
-        forall|e: u32| #![auto] self.events@.contains_key(e) ==> self.events@[e]@.len() > 0
-    }
+    //@include _shared/service_specs.rs
 
     //@fn broker/src/broker/service.rs Service::new
         ensures
